@@ -44,6 +44,9 @@ type World struct {
 	Funcs  []*ssa.Function          // every source function of the module (incl. anonymous)
 	byName map[string]*ssa.Function // "(*connection).Release", "malloc", "mux.(*ShardQueue).Add"
 	NFiles int
+
+	callersIdx   map[*ssa.Function]*callerInfo
+	ifaceMethods map[string]bool
 }
 
 var worlds = map[string]*World{}
@@ -263,4 +266,118 @@ func (w *World) PkgConst(path, name string) (int64, bool) {
 		return v, ok
 	}
 	return 0, false
+}
+
+// ---- private helpers of an owner ------------------------------------------------------------------------
+//
+// The who-may-call tables name the functions that own an effect (close(2), free, a field write ...). Extracting a few
+// statements of an owner into a new unexported helper must not change a verdict: a function counts as *part of* an owner
+// when it is a named, unexported module function that is never used as a value, cannot be reached through an interface of
+// the module, and whose every static call site lies in that owner (or in another such helper of it).
+
+type callerInfo struct {
+	callers  map[*ssa.Function]bool
+	asValue  bool
+	computed bool
+}
+
+func (w *World) callerIndex() map[*ssa.Function]*callerInfo {
+	if w.callersIdx != nil {
+		return w.callersIdx
+	}
+	idx := map[*ssa.Function]*callerInfo{}
+	get := func(f *ssa.Function) *callerInfo {
+		ci := idx[f]
+		if ci == nil {
+			ci = &callerInfo{callers: map[*ssa.Function]bool{}}
+			idx[f] = ci
+		}
+		return ci
+	}
+	for _, fn := range w.Funcs {
+		for _, b := range fn.Blocks {
+			for _, ins := range b.Instrs {
+				var callee *ssa.Function
+				if cc := callCommon(ins); cc != nil {
+					callee = cc.StaticCallee()
+					if callee != nil {
+						get(callee).callers[fn] = true
+					}
+				}
+				var buf [12]*ssa.Value
+				for _, op := range ins.Operands(buf[:0]) {
+					if f, ok := (*op).(*ssa.Function); ok && f != nil {
+						if cc := callCommon(ins); cc != nil && cc.Value == ssa.Value(f) && !cc.IsInvoke() {
+							// the callee position of a static call; the same function may also appear among the arguments
+							n := 0
+							for _, a := range cc.Args {
+								if a == ssa.Value(f) {
+									n++
+								}
+							}
+							if n == 0 {
+								continue
+							}
+						}
+						get(f).asValue = true
+					}
+				}
+			}
+		}
+	}
+	// interface method names of the module: a method with such a name may be invoked dynamically
+	w.ifaceMethods = map[string]bool{}
+	for _, p := range []*ssa.Package{w.Main, w.Mux, w.Runner} {
+		if p == nil {
+			continue
+		}
+		sc := p.Pkg.Scope()
+		for _, n := range sc.Names() {
+			if tn, ok := sc.Lookup(n).(*types.TypeName); ok {
+				if it, ok := tn.Type().Underlying().(*types.Interface); ok {
+					for i := 0; i < it.NumMethods(); i++ {
+						w.ifaceMethods[it.Method(i).Name()] = true
+					}
+				}
+			}
+		}
+	}
+	w.callersIdx = idx
+	return idx
+}
+
+// OwnerOf returns the table entry the function belongs to: its own name if listed, else the single listed owner all its
+// call sites lie in (one level: a helper of a helper is not attributed - a raw close added deep inside a callee of an owner stays a new site).
+func (w *World) OwnerOf(f *ssa.Function, listed func(name string) bool) (string, bool) {
+	return w.ownerOf(f, listed, 0)
+}
+
+func (w *World) ownerOf(f *ssa.Function, listed func(name string) bool, depth int) (string, bool) {
+	name := w.FnName(f)
+	if listed(name) {
+		return name, true
+	}
+	if depth >= 1 || f.Parent() != nil {
+		return "", false
+	}
+	idx := w.callerIndex()
+	ci := idx[f]
+	if ci == nil || ci.asValue || len(ci.callers) == 0 {
+		return "", false
+	}
+	if token.IsExported(f.Name()) || w.ifaceMethods[f.Name()] {
+		return "", false
+	}
+	owner := ""
+	for c := range ci.callers {
+		if c == f {
+			continue
+		}
+		o, ok := w.ownerOf(c, listed, depth+1)
+		if !ok || (owner != "" && o != owner) {
+			return "", false
+		}
+		owner = o
+	}
+	return owner, owner != ""
 }
